@@ -81,6 +81,13 @@ CLAIMED = {
              "twins, == and != are evaluated both ways and compared with the definition of equality; reflexivity and deep copies included.",
         technique="TLA+ spec (MC_C19, EqDef) model-checked exhaustively with TLC; spec->code replay of every pair",
         design="4 C19"),
+    "C13": dict(
+        text="On surfaces and volumes with pairwise different sizes TLC checks that construct(extract) along the matching direction is the "
+             "identity, that managers, the 2-D view and the row-order flips address v + size_v (u + size_u w), that transposition swaps u and v "
+             "and that a sweep has the input and its translate as opposite boundary sections; the expected definitions are replayed into "
+             "construct.*, sweeping.sweep_vector, operations.transpose/flip, Surface.ctrlpts2d, control_points managers and compatibility flips.",
+        technique="TLA+ spec (Layout, MC_C13) model-checked exhaustively with TLC; spec->code replay of every transition",
+        design="4 C13"),
 }
 
 PENDING_REASON = "check not built yet (work in progress, see DESIGN.md section 8 build order)"
